@@ -136,6 +136,9 @@ func gen(rng *hx.Rng, n int) []step {
 			out = append(out, step{actor, "RENAME " + rng.Pick([]string{"common", "x", "INBOX"}) + " " + rng.Pick([]string{"y", "x", "Roles/sales@example.com/y"})})
 		case x < 95:
 			out = append(out, step{"admin", rng.Pick([]string{"unassign A", "assign A", "assign A", "deliver R", "deliver A", "deliver B", "relogin A"})})
+		case x < 97:
+			// a second LOGIN on the same connection, as the other user or as the same one
+			out = append(out, step{actor, "LOGIN " + rng.Pick([]string{"a@example.com", "b@example.com"}) + " pw"})
 		default:
 			out = append(out, step{actor, rng.Pick([]string{`LIST "" "*"`, `LSUB "" "*"`, "STATUS INBOX (MESSAGES)", "IDLE"})})
 		}
@@ -148,6 +151,7 @@ var tokN int
 type session struct {
 	c       *world.Client
 	user    string
+	ident   string // "A" | "B": whose identity the connection holds (a second LOGIN may change it)
 	sel     string // "" or store:mailbox chosen by the last successful SELECT/EXAMINE ("A:INBOX", "R:INBOX")
 	selBox  string
 	selStor string
@@ -269,6 +273,8 @@ func runProg(rep *hx.Report, w *world.World, prog []step, pi int) {
 	db.AssignUserToRoleMailbox(shared, idb, otherID, idb)
 	assignedA := true
 	rw := func(s string) string {
+		s = strings.ReplaceAll(s, "LOGIN a@example.com", "LOGIN "+ua)
+		s = strings.ReplaceAll(s, "LOGIN b@example.com", "LOGIN "+ub)
 		s = strings.ReplaceAll(s, "sales@example.com", roleAddr)
 		return strings.ReplaceAll(s, "other@example.com", otherAddr)
 	}
@@ -296,7 +302,7 @@ func runProg(rep *hx.Report, w *world.World, prog []step, pi int) {
 		deliver(roleAddr, "R")
 	}
 	// the role store needs "common" too: created by the observer through a role selection is not possible, so deliver with a default folder
-	sess := map[string]*session{"A": {c: w.Login(ua), user: ua}, "B": {c: w.Login(ub), user: ub}}
+	sess := map[string]*session{"A": {c: w.Login(ua), user: ua, ident: "A"}, "B": {c: w.Login(ub), user: ub, ident: "B"}}
 	defer func() {
 		for _, s := range sess {
 			s.c.Close()
@@ -342,7 +348,7 @@ func runProg(rep *hx.Report, w *world.World, prog []step, pi int) {
 				deliver(ub, "B")
 			case "relogin A":
 				sess["A"].c.Close()
-				sess["A"] = &session{c: w.Login(ua), user: ua}
+				sess["A"] = &session{c: w.Login(ua), user: ua, ident: "A"}
 			}
 			before = dumpAll()
 			continue
@@ -367,7 +373,13 @@ func runProg(rep *hx.Report, w *world.World, prog []step, pi int) {
 			r = s.c.Cmd(cmd)
 		}
 		rep.Hit("cmd:" + verb + ":" + r.Status())
-		own := st.actor
+		if verb == "LOGIN" && r.OK() {
+			// the connection now holds the identity it logged in with, and that identity has selected nothing
+			s.ident = map[bool]string{true: "A", false: "B"}[strings.Contains(cmd, ua)]
+			s.selStor, s.selBox = "", ""
+			rep.Hit("second-login:accepted")
+		}
+		own := s.ident
 		// track the selection exactly as the property defines it: the last *successful* SELECT/EXAMINE
 		if verb == "SELECT" || verb == "EXAMINE" {
 			path := strings.Fields(cmd)[1]
@@ -375,13 +387,13 @@ func runProg(rep *hx.Report, w *world.World, prog []step, pi int) {
 				if strings.HasPrefix(path, "Roles/"+roleAddr+"/") {
 					s.selStor, s.selBox = "R", strings.TrimPrefix(path, "Roles/"+roleAddr+"/")
 					roleSelected = true
-					if st.actor == "B" || (st.actor == "A" && !assignedA) {
-						rep.Violate("impl-violation", "authorisation", fmt.Sprintf("user %s selected %s without being assigned to the role mailbox", st.actor, path), replay())
+					if own == "B" || (own == "A" && !assignedA) {
+						rep.Violate("impl-violation", "authorisation", fmt.Sprintf("user %s selected %s without being assigned to the role mailbox", own, path), replay())
 						return
 					}
 				} else if strings.HasPrefix(path, "Roles/") {
-					if !(st.actor == "B" && strings.HasPrefix(path, "Roles/"+otherAddr+"/")) {
-						rep.Violate("impl-violation", "authorisation", fmt.Sprintf("user %s selected %s, a role mailbox it is not assigned to / that does not exist", st.actor, path), replay())
+					if !(own == "B" && strings.HasPrefix(path, "Roles/"+otherAddr+"/")) {
+						rep.Violate("impl-violation", "authorisation", fmt.Sprintf("user %s selected %s, a role mailbox it is not assigned to / that does not exist", own, path), replay())
 						return
 					}
 					s.selStor, s.selBox = "other", path
@@ -424,7 +436,7 @@ func runProg(rep *hx.Report, w *world.World, prog []step, pi int) {
 					selDesc = "selected " + s.selStor + ":" + s.selBox
 				}
 				rep.Violate("impl-violation", "frame (Props.C05.selected_state_uses_selected_store / frame)",
-					fmt.Sprintf("user %s (%s) sent %q -> %s and mailbox %q of store %s changed:\n  before: %s\n  after:  %s", st.actor, selDesc, cmd, r.Status(), box, store, before[store][box], after[store][box]), replay())
+					fmt.Sprintf("user %s (%s) sent %q -> %s and mailbox %q of store %s changed:\n  before: %s\n  after:  %s", own, selDesc, cmd, r.Status(), box, store, before[store][box], after[store][box]), replay())
 				return
 			}
 		}
@@ -433,6 +445,15 @@ func runProg(rep *hx.Report, w *world.World, prog []step, pi int) {
 			if !strings.Contains(after["R"][s.selBox], "kw") {
 				rep.Violate("impl-violation", "effect in the selected store", fmt.Sprintf("user %s selected R:%s, %q answered OK but the role mailbox shows %s", st.actor, s.selBox, cmd, after["R"][s.selBox]), replay())
 				return
+			}
+		}
+		// ---- reveal: an identity that has selected nothing is shown no message ----
+		if (verb == "FETCH" || verb == "SEARCH" || verb == "UID") && s.selStor == "" {
+			for _, l := range r.Untagged {
+				if strings.Contains(l, " FETCH (") || (strings.HasPrefix(l, "* SEARCH") && len(strings.Fields(l)) > 2) {
+					rep.Violate("impl-violation", "reveal", fmt.Sprintf("user %s has selected nothing (connection of %s) and %q -> %s returned %q", own, st.actor, cmd, r.Status(), l), replay())
+					return
+				}
 			}
 		}
 		// ---- reveal: FETCH / SEARCH answers come from the selected mailbox ----
